@@ -44,7 +44,7 @@ structure VInv (c : Cfg) : Prop where
     Queue.stopped t.qt = false
   /-- a prefetch thread that has ended has left `enqueue_from_iterator` -/
   pd : ∀ (tid : Queue.Tid) (t : Thread) (k : Nat), c.ths[tid]? = some t → t.prog = .producer k → t.pc = .done →
-    t.qt.pc = .done
+    t.qt.pc = .done ∧ t.qt.prog.kind = .producer
   /-- the join of a locked stop comes after `maybe_stop` -/
   jn : ∀ (tid : Queue.Tid) (t : Thread), c.ths[tid]? = some t → t.pc = .lkJoin →
     ∃ q, c.sh.qs[t.g]? = some q ∧ q.stopRequested = true
@@ -500,7 +500,11 @@ theorem vinv_step {c c' : Cfg} {tid : Queue.Tid} {lbl : String}
         rw [hself] at h1; cases h1
         rcases hprod hpc' with ⟨a, -⟩ | ⟨-, a⟩
         · rw [a] at hd; cases hd
-        · rw [hqt']; exact a
+        · have hemb := (hG.ths tid t ht).emb
+          simp only [EmbOK, hpc'] at hemb
+          obtain ⟨q1, -, -, ⟨src, r, hpr⟩, htok, -⟩ := hemb
+          rw [hqt']
+          exact ⟨a, by rw [(Queue.stepThread_data lbl0 q' qt' hst htok).2.1, hpr]; rfl⟩
     · exact hV.pd j u k hu0 hp hd
     · rw [h2] at hd; cases hd
   · -- jn
